@@ -1,4 +1,5 @@
 import BornoModel.Eval
+import BornoModel.Lemmas.EvalInv
 /-! # C11 — arrays are bounds-checked shared references; লেন / এড / রিমুভ are pure sequence operations -/
 namespace Borno.Props.C11
 open Borno Expect
@@ -105,5 +106,15 @@ theorem array_is_reference (P : Platform) (f : Nat) (a i : Expr) (line env : Nat
   simp [hc]
   simp [arrOf] at hv
   simp [hv]
+
+/-- **arrays never grow, wrap or truncate**: whatever is evaluated — any expression, statement, call,
+    loop, built-in —, every array that existed before still exists afterwards with the same length -/
+theorem arrays_never_resize (P : Platform) (f : Nat) (e : Expr) (s : Stmt) (env : Nat) (repl : Bool) (σ σ' : Store) (r : Val × Signal)
+    (i : Nat) (xs : List Val) (hx : σ.arrs[i]? = some xs) :
+    (evalE P f e env repl σ = .ok r σ' → ∃ ys, σ'.arrs[i]? = some ys ∧ ys.length = xs.length) ∧
+    (evalS P f s env repl σ = .ok r σ' → ∃ ys, σ'.arrs[i]? = some ys ∧ ys.length = xs.length) := by
+  constructor
+  · intro h; have := (allSat P f).e e env repl σ; rw [h] at this; exact this.arrs_keep i xs hx
+  · intro h; have := (allSat P f).s s env repl σ; rw [h] at this; exact this.arrs_keep i xs hx
 
 end Borno.Props.C11
